@@ -8,7 +8,7 @@ from typing import Any
 
 import anyio
 
-from .bench import Adapter, Bench, compare
+from .bench import Adapter, Bench, compare, prim
 from .common import Ctx, Disagreement, Result, Violation, load_corpus, run_model
 
 
@@ -20,7 +20,7 @@ class LockAdapter(Adapter):
 
     def setup(self, cfg: Any, bench: Bench) -> None:
         self.bench = bench
-        self.lock = anyio.Lock(fast_acquire=bool(cfg["fast"]))
+        self.lock = prim("Lock", bool(cfg.get("adapter")), fast_acquire=bool(cfg["fast"]))
 
     def fmt(self, t: int, op: list, pre: bool) -> str:
         if op[0] == "acquire":
@@ -75,7 +75,7 @@ def gen_case(rng: random.Random, max_tasks: int, max_ops: int) -> dict:
         if holding and rng.random() < 0.8:
             ops.append(["release"])
         scripts.append(ops)
-    return {"cfg": {"fast": rng.random() < 0.4}, "scripts": scripts}
+    return {"cfg": {"fast": rng.random() < 0.4, "adapter": rng.random() < 0.25}, "scripts": scripts}
 
 
 def enum_cases(max_len: int):
